@@ -44,6 +44,10 @@ type c03pScenario struct {
 	Fans    []c03pFan    `json:"fans"`
 	Signals []c03pSignal `json:"signals"`
 	TempC   int          `json:"tempC"`
+	// after the last listed signal: a burst of BurstN further signals (alternating INT/TERM),
+	// BurstGapUs microseconds apart - many arrival times relative to the shutdown in one run
+	BurstN     int `json:"burstN,omitempty"`
+	BurstGapUs int `json:"burstGapUs,omitempty"`
 }
 
 func genC03P(t *rapid.T) c03pScenario {
@@ -60,6 +64,10 @@ func genC03P(t *rapid.T) c03pScenario {
 	for i := 0; i < extra; i++ {
 		sc.Signals = append(sc.Signals, c03pSignal{Sig: rapid.SampledFrom([]string{"TERM", "INT"}).Draw(t, "sig"),
 			DelayMs: rapid.OneOf(rapid.IntRange(0, 400), rapid.SampledFrom([]int{0, 1, 5, 10, 50})).Draw(t, "delayMs")})
+	}
+	if rapid.IntRange(0, 2).Draw(t, "burst") > 0 {
+		sc.BurstN = rapid.SampledFrom([]int{20, 60, 150}).Draw(t, "burstN")
+		sc.BurstGapUs = rapid.SampledFrom([]int{30, 100, 300, 1000}).Draw(t, "burstGapUs")
 	}
 	return sc
 }
@@ -176,6 +184,18 @@ func runC03P(t *testing.T, sc c03pScenario) verdict {
 		}
 		_ = cmd.Process.Signal(sig)
 	}
+	for i := 0; i < sc.BurstN && alive; i++ {
+		t1 := time.Now()
+		for time.Since(t1) < time.Duration(sc.BurstGapUs)*time.Microsecond {
+		} // spin: sleeping is too coarse
+		sig := syscall.SIGINT
+		if i%2 == 1 {
+			sig = syscall.SIGTERM
+		}
+		if err := cmd.Process.Signal(sig); err != nil {
+			break // gone
+		}
+	}
 	out := c03pOutcome{}
 	inconclusive := false
 	if alive {
@@ -252,7 +272,10 @@ func runC03P(t *testing.T, sc c03pScenario) verdict {
 	default:
 		labels = append(labels, "phase:ticking")
 	}
-	nt := touchedAny && (len(sc.Signals) > 1 || hasOrigMode(sc, 1, 5, 0))
+	if sc.BurstN > 0 {
+		labels = append(labels, "signal-burst")
+	}
+	nt := touchedAny && (len(sc.Signals) > 1 || sc.BurstN > 0 || hasOrigMode(sc, 1, 5, 0))
 	return verdict{vs: vs, nontrivial: nt, labels: labels, outcome: out}
 }
 
